@@ -67,7 +67,7 @@ POOL = [
     'B(1, 2)', 'B(2, 0)', 'C(1, 2)', 'C(2, 1)', 'C(1, 3)', 'A(A(1))',
     'A(B(1))', "A({'p': 1, 'q': 2})", "A({'q': 2, 'p': 1})", 'A.partial()',
     'C.partial(1)', 'N(1)', 'N(2)', 'L1(1)', 'L2(1)', "A('a')",
-    'PD()', 'PD(a=1)', 'PD(b=1)', 'PD(a=1, b=2)', 'PD(b=2, a=1)', "{'a': N(1)}", '[N(1), 0]',
+    'PD()', 'PD(a=1)', 'PD(b=1)', 'PD(a=1, b=2)', 'PD(b=2, a=1)', "{'a': N(1)}", '[N(1), 0]', '[N(1), 1]', "{'a': N(1), 'b': 0}", "{'a': N(1), 'b': 1}", 'A(N(1))', 'C(N(1), 0)', 'C(N(1), 1)',
     "[{'a': 1, 'c': 0}]", "[{'a': 1, 'b': 2}, 1]", "[{'b': 2, 'a': 1}, 0]",
     '[A(1)]', '[A(2)]', "{'a': A(1)}", '(1, 1)', "pg.Dict(a=A(1))",
 ]
